@@ -133,10 +133,14 @@ fn write_ext(ext: Term, a: &Value, now: &mut i64, c: &C) {
     // mirrors WriteState / WriteCmd of the specification: the value is a function of the (new) time
     *now += 1;
     let t = *now;
-    let sv = |t: i64| State::new_raw(c.v(&json!([2 * t - 3, 1])), c.v(&json!([4 - t, 1])), c.v(&json!([t % 3 - 1, 1])));
+    let sv = |t: i64| State::new_raw(c.v(&json!([2 * t - 3, 1])), c.v(&json!([4 - t, 1])), c.v(&json!([t.rem_euclid(3) - 1, 1])));
     match s(a, "op") {
         "state" => {
             let _ = ext.borrow_mut().set(Datum::new(c.t(t), sv(t)));
+        }
+        "stale" => {
+            // a late reading: new value, stamped two ticks before this write (one tick before the previous one)
+            let _ = ext.borrow_mut().set(Datum::new(c.t(t - 2), sv(t)));
         }
         "cmd" => {
             let _ = ext.borrow_mut().set(Datum::new(c.t(t), Command::new(pd(i(a, "k")), c.v(&json!([5 - 2 * t, 1])))));
@@ -236,7 +240,7 @@ fn encoder(steps: &[Value], c: &C) -> Bad {
     let ext: Term = leak(Terminal::<E>::new());
     connect(w.get_terminal(), ext);
     let mut now = 0i64;
-    let sv = |t: i64| State::new_raw(c.v(&json!([2 * t - 3, 1])), c.v(&json!([4 - t, 1])), c.v(&json!([t % 3 - 1, 1])));
+    let sv = |t: i64| State::new_raw(c.v(&json!([2 * t - 3, 1])), c.v(&json!([4 - t, 1])), c.v(&json!([t.rem_euclid(3) - 1, 1])));
     for (idx, st) in steps.iter().enumerate() {
         let a = &st["a"];
         let r: Result<NothingOrError<E>, String> = match s(a, "op") {
